@@ -29,4 +29,4 @@ Separate Extraction
   Consts.repaired Consts.original Consts.check_defs Consts.compile_consts Consts.const_spec Consts.bits_unsigned Consts.bits_signed Consts.wt_defs Consts.sup_ok
   PanicRec.pstate_new PanicRec.push_panic_if PanicRec.mux_panic PanicRec.prec_wires PanicRec.nset_keys PanicRec.parse_panic PanicRec.preason_num PanicRec.preason_from_num
   Extend.extend_to_bits SortJob.run_sops
-  Lower.lower_program TSem.tsem_program Fragment.in_proved_fragment Fragment.covered_program TSemSemFullWt.wt_covered SemFuel.sem_fuel_enough TSemSemFull.canonical_main_args TSemSafe.safe_program_ok TSemTotal.fuel_enough TSemTotal.params_ok FreeLower.klower_main Useful.check_exhaustive Useful.fuel_bound ParseExpr.parse_expr ParseExpr.parse_expr_st ParseExpr.fuel_for_tokens.
+  Lower.lower_program TSem.tsem_program Fragment.in_proved_fragment Fragment.covered_program TSemSemFullWt.wt_covered SemFuel.sem_fuel_enough TSemSemFull.canonical_main_args TSemSafe.safe_program_ok TSemTotal.fuel_enough TSemTotal.params_ok FreeLower.klower_main Useful.check_exhaustive Useful.fuel_bound ParseExpr.parse_expr ParseExpr.parse_expr_st ParseExpr.parse_block_text ParseExpr.fuel_for_tokens.
